@@ -466,7 +466,7 @@ def run_backend(backend, tier, seed, repo, have_driver=True):
     fac = own.make_memory if backend == "memory" else own.SqlFactory(backend)
     # rounds stay small (the model's heap only grows within a round); thorough = many more rounds
     # (the extracted model's run time grows faster than quadratically with the steps of a round: more, shorter rounds)
-    n_rounds = (4 if quick else 180) if backend == "memory" else (2 if quick else 30)
+    n_rounds = (4 if quick else 100) if backend == "memory" else (2 if quick else 30)
     n_random = (25 if quick else 50) if backend == "memory" else (15 if quick else 60)
     n_windows = (35 if quick else 60) if backend == "memory" else (25 if quick else 80)
     n_seq = (2 if quick else 3) if backend == "memory" else (2 if quick else 6)
